@@ -389,7 +389,7 @@ def mgr_replay(results, scenarios, remote_ids):
 
 def _norm(r):
     """Go encodes empty slices as null: make every list a list"""
-    for k in ("conns", "cbs", "events", "api", "writes", "dials", "steplog"):
+    for k in ("conns", "cbs", "events", "api", "writes", "dials", "steplog", "inbound"):
         if k in r and r[k] is None:
             r[k] = []
     for c in r.get("conns") or []:
@@ -514,8 +514,15 @@ def cb_wf(res):
 
 
 def wire_wf(res):
-    """C04: everything corebgp wrote parses as whole well-formed messages."""
+    """C04: everything corebgp wrote parses as whole well-formed messages.  C10/C13: every connection corebgp's
+    listener accepted has been closed by corebgp (an explicit Close, not a finalizer) by the time the server was closed."""
     bad = []
+    fin = [a for a in res.get("api") or [] if a["name"] == "final-close" and a["err"] == ""]
+    if fin and not res.get("error"):
+        never = [i for i in res.get("inbound") or [] if i["closed_at"] < 0]
+        if never:
+            bad.append("inbound connection accepted at %d ms from %s was never closed by corebgp (dropped without Close)"
+                       % (never[0]["accepted_at"], never[0]["remote"]))
     for c in res["conns"] or []:
         if c.get("garbage"):
             bad.append("conn %s: bytes that are not whole well-formed messages: %s" % (c["name"], c["garbage"][:80]))
